@@ -815,6 +815,11 @@ def seq_state(rng, L, mx):
         b[i] = rng.randint(1, min(dmax, 2 * b[i - 1], 2 ** min(i, L - i)))
     for i in range(L - 1, 0, -1):
         b[i] = min(b[i], 2 * b[i + 1])
+    if rng.random() < 0.2:
+        # hand-made tensors with over-complete bonds (larger than d * the neighbouring bond): a QR centre shift then SHRINKS a
+        # bond to d * (left bond) — the only way the `min` of the model's QR rule is decided by its first argument
+        kind = "overcomplete"
+        b = [1] + [rng.randint(1, dmax) for _ in range(L - 1)] + [1]
     ts = [nprng.normal(size=(2, b[i], b[i + 1])) + 1j * nprng.normal(size=(2, b[i], b[i + 1])) for i in range(L)]
     s = MPS(L, tensors=ts, physical_dimensions=[2] * L)
     s.normalize("B")
